@@ -1388,7 +1388,7 @@ func (c *Client) sendSingleMsg(client *smtp.Client, message *Msg) error {
 	defer c.mutex.RUnlock()
 	escSupport, _ := client.Extension("ENHANCEDSTATUSCODES")
 
-	if message.encoding == NoEncoding {
+	if message.hasUnencodedContent() {
 		if ok, _ := client.Extension("8BITMIME"); !ok {
 			return &SendError{Reason: ErrNoUnencoded, isTemp: false, affectedMsg: message}
 		}
